@@ -256,9 +256,22 @@ def _rest(ctx, rep):
         for c2 in lcs[0].generators[0].ifs:
             conds += [utext(v) for v in c2.values] if isinstance(c2, ast.BoolOp) and isinstance(c2.op, ast.And) else [utext(c2)]
         v = utext(lcs[0].generators[0].target)
-        good = "%s.closed" % v in conds and any(
-            (oriented(canon_compare(ast.parse(t, mode="eval").body), "%s.elapsed_seconds_closed" % v) or (0, 0, 0))[1:] == (">", "3600")
-            for t in conds if "3600" in t)
+        def at_least_an_hour(txt):
+            """the threshold: the literal 3600, or a value that provably is never below it"""
+            e = ast.parse(txt, mode="eval").body
+            if isinstance(e, ast.Constant):
+                return isinstance(e.value, (int, float)) and e.value >= 3600
+            e = resolve_local(f, e)
+            if isinstance(e, ast.Constant):
+                return isinstance(e.value, (int, float)) and e.value >= 3600
+            if isinstance(e, ast.Call):
+                callees, conf = res.resolve_call(e, f)
+                return bool(callees) and all(_returns_at_least(ctx, g_, 3600) for g_ in callees)
+            return False
+        thr = [oriented(canon_compare(ast.parse(t, mode="eval").body), "%s.elapsed_seconds_closed" % v) for t in conds
+               if "elapsed_seconds_closed" in t]
+        thr = [x for x in thr if x is not None]
+        good = "%s.closed" % v in conds and len(thr) == 1 and thr[0] is not None and thr[0][1] == ">" and at_least_an_hour(thr[0][2])
         lp3 = [x for x in walk_nodes(f.node.body, ast.For) if live_rm and live_rm[0][1] in walk_calls(x.body)]
         d = [s for s in walk_nodes(f.node.body, ast.Assign) if s.value is lcs[0]]
         good = good and len(lp3) == 1 and d and utext(lp3[0].iter) == utext(d[0].targets[0]) and \
@@ -303,6 +316,23 @@ def _rest(ctx, rep):
 
     # ------------------------------------------------------------------ R5 results for every order
     closed_market_results(ctx, rep, "R5")
+
+
+def _returns_at_least(ctx, func, bound):
+    """every return of func is a numeric literal >= bound, or a name returned only where `name >= bound` holds"""
+    from sa.kinds import guard_pairs, holds
+    cfgx = ctx.cfg(func)
+    rets = [n for n in cfgx.live_nodes() if n.kind == "return"]
+    if not rets or cfgx.exit in {m for n in cfgx.live_nodes() if n.kind != "return" for l, m in n.succ if l != "exc"}:
+        return False
+    for n in rets:
+        v = n.ast.value
+        if isinstance(v, ast.Constant) and isinstance(v.value, (int, float)) and not isinstance(v.value, bool) and v.value >= bound:
+            continue
+        if isinstance(v, ast.Name) and holds(guard_pairs(cfgx, n.id), "%s >= %s" % (v.id, bound)):
+            continue
+        return False
+    return True
 
 
 def closed_market_results(ctx, rep, R):
